@@ -231,7 +231,8 @@ class StepOps:
         ib = body(it)
         if not (len(ib) == 1 and isinstance(ib[0], ast.Return) and isinstance(ib[0].value, ast.Name) and ib[0].value.id == it.param_names()[0]):
             return False
-        return all(not body(m) or (len(body(m)) == 1 and isinstance(body(m)[0], ast.Return) and body(m)[0].value is None)
+        return all(not body(m) or (len(body(m)) == 1 and isinstance(body(m)[0], ast.Return) and (
+            body(m)[0].value is None or (isinstance(body(m)[0].value, ast.Constant) and body(m)[0].value.value is None)))
                    for name, m in info.methods.items() if name not in ("__init__", "__anext__", "__aiter__"))
 
     # ------------------------------------------------------------------ evaluation hooks
@@ -438,6 +439,8 @@ class StepOps:
             if op in ("Mod", "FloorDiv"):
                 return UNKNOWN if right == 0 else (left % right if op == "Mod" else left // right)
             return {"Add": left + right, "Sub": left - right, "Mult": left * right}.get(op, UNKNOWN)
+        if op == "Mult" and self._is_list(left) and isinstance(right, int) and not isinstance(right, bool) and 0 <= right <= 16:
+            return self._new(env, list(self._get(env, left)) * right)  # ``[x] * n``: a new list
         return UNKNOWN
 
     def augstore(self, node, env, ev):
